@@ -197,6 +197,19 @@ class RelayMode(vlib.Mode):
                 case.append(f"session {tok(now, topic=sval(t), bid=sval(b), scopes=lval(sc))} {hx(t)}")
                 case.append(f"ws {hx('/session/' + t)} c{len(st['codes'])}")
                 st["codes"].append(t); st["joined"] = st.get("joined", 0) + 1
+        if rng.random() < 0.12:
+            # cancel, re-admit, reconnect, cancel AGAIN: the second cancellation of the same booking must close the new connections too
+            t, b = rng.choice(TOPICS[:2]), rng.choice(BIDS)
+            for rnd in range(rng.choice([2, 3])):
+                for _ in range(rng.choice([1, 2])):
+                    case.append(f"session {tok(now, topic=sval(t), bid=sval(b), scopes=lval(['read', 'write']))} {hx(t)}")
+                    case.append(f"ws {hx('/session/' + t)} c{len(st['codes'])}")
+                    st["codes"].append(t); st["joined"] = st.get("joined", 0) + 1
+                case.append(f"deny {admin()} {sval(b)} {sval(str(now + 500))}"); case.append("sync")
+                if rng.random() < 0.3:       # the booking system repeats its cancellation
+                    case.append(f"deny {admin()} {sval(b)} {sval(str(now + 500))}"); case.append("sync")
+                case.append("members")
+                case.append(f"allow {admin()} {sval(b)} {sval(str(now + 500))}"); case.append("sync")
         steps = rng.choice([6, 10, 16, 24])
         used = []     # request lines issued so far with a token that was built valid: replayed verbatim later (possibly after the clock moved)
         for _ in range(steps):
@@ -266,7 +279,8 @@ class RelayMode(vlib.Mode):
                 verb = rng.choice(["deny", "deny", "allow"])
                 cred = admin() if rng.random() < 0.6 else rng.choice([
                     tok(now, scopes=lval(rng.choice(ADMIN_SCOPES)), topic="a", prefix="a", bid="a"),
-                    admin(sig="badsecret"), admin(exp=f"i{now}"), admin(exp="a"), admin(aud=lval(["nope"])), "-", tok(now)])
+                    admin(sig="badsecret"), admin(exp=f"i{now}"), admin(exp="a"), admin(aud=lval(["nope"])), "-", tok(now),
+                    admin(iat="a"), admin(iat="a"), admin(nbf="a"), admin(iat="a", nbf="a")])
                 bid = rng.choice([sval(rng.choice(BIDS))] * 6 + ["a", "s-"])
                 exp = rng.choice([sval(str(now + 500))] * 5 + [sval(str(now)), sval(str(now - 1)), "a", sval("abc"), sval("-5"),
                                                                    sval("9223372036854775808"), sval("+7"), "s-", sval("1e3"), sval("-9223372036854775808"),
@@ -488,7 +502,9 @@ class RelayMode(vlib.Mode):
         for prop, sig, desc in F:
             # "never success to a bad request" (C11) is also what the per-endpoint grant checks of C01 / C09 / C10 say
             also_c11 = self.focus == "C11" and sig in ("code-for-invalid-bearer", "admin-call-granted-without-right", "status-granted-without-right", "bad-params-accepted")
-            if self.focus is None or prop == self.focus or sig == "relay-crash-or-hang" or also_c11:
+            # the register's verdict is what the session handler consults: a code granted under a listed booking is the register's business too
+            also_c10 = self.focus == "C10" and sig in ("code-for-invalid-bearer", "list-not-exact", "bad-params-accepted")
+            if self.focus is None or prop == self.focus or sig == "relay-crash-or-hang" or also_c11 or also_c10:
                 res.append((sig, desc))
         return res
 
